@@ -81,6 +81,11 @@ def judge(run, cases, outs, codes, fails, oracle, value_codes=(1, 2, 3), corr_co
             continue
         base, region = code % 100, code // 100
         sig = REGION_SIGS.get(region)
+        o = outs.get(c["id"]) or {}
+        if not sig and o.get("st") == "panic" and o.get("site") == "rel:NewTuple" and "interface conversion" in (o.get("msg") or ""):
+            # NewTuple's unchecked .(Number) assertion on a sugar-shaped tuple: the model may reach another error of the
+            # same expression first (it visits members in canonical order), so the region test cannot see this one
+            region, sig = 3, REGION_SIGS[3]
         if region and skip_regions:
             continue      # inside the region of a finding that belongs to another property
         rec = {"case": {"label": c.get("label"), "src": c["src"], "coq": c["coq"]}, "observed": outs.get(c["id"]),
